@@ -92,7 +92,8 @@ KNOWN FINDING `stored-share-lost-by-start-panic`, replayed on the implementation
 a chain notification accepts the proposal, more packets arrive — among them the honest messages of
 ≥ k members. -/
 def FullStatementLifeLiveness : Prop :=
-  ∀ (c : Crypto Sym) (env : Env), env.bindsHash = true → env.blockExists = false → 0 < env.groupSize →
+  ∀ (c : Crypto Sym) (env : Env), env.bindsHash = true → env.startRecovers = false →
+    env.blockExists = false → 0 < env.groupSize →
     ∀ (sh : Id → Data → Sym) (gs : Data → Sym), Lawful c env sh gs →
       ∀ (key0 : Data) (early late : List (Wire Sym)) (honest : List (Id × MsgId)),
         (honest.map (·.1)).Nodup → groupK env.groupSize ≤ honest.length →
@@ -101,7 +102,8 @@ def FullStatementLifeLiveness : Prop :=
           ([Event.cast 1000 .wait] ++ early.map (Event.packet false) ++ [Event.notify .accept] ++
             late.map (Event.packet false))).proc.ending = some true
 
-def liveEnv : Env := { leadEnv with bindsHash := true }
+/-- the handler binds the hash (fixed) but `round1.Start` does not contain a stored message's panic -/
+def liveEnv : Env := { leadEnv with bindsHash := true, startRecovers := false }
 
 /-- filed under the pre-change key (tag 9), signer id longer than 32 bytes -/
 def oversizeMsg : VMsg Sym :=
@@ -117,7 +119,7 @@ theorem life_liveness_counterexample : ¬ FullStatementLifeLiveness := by
   intro h
   have hl : Lawful (symCrypto 2 [0, 1, 2]) liveEnv (fun i d => Sym.share i d) (fun d => Sym.group d) :=
     symCrypto_lawful liveEnv (by decide)
-  have := h (symCrypto 2 [0, 1, 2]) liveEnv rfl rfl (by decide) _ _ hl 9
+  have := h (symCrypto 2 [0, 1, 2]) liveEnv rfl rfl rfl (by decide) _ _ hl 9
     [.ok oversizeMsg]
     [.ok (honestMsg liveEnv (fun i d => Sym.share i d) 1 1), .ok (honestMsg liveEnv (fun i d => Sym.share i d) 2 2)]
     [(1, 1), (2, 2)] (by decide) (by decide)
@@ -133,6 +135,15 @@ theorem life_liveness_counterexample : ¬ FullStatementLifeLiveness := by
 map order. -/
 example :
     (Life.run (symCrypto 2 [0, 1, 2]) liveEnv List.reverse (Life.new 9)
+      [.cast 1000 .wait, .packet false (.ok oversizeMsg), .notify .accept,
+       .packet false (.ok (honestMsg liveEnv (fun i d => Sym.share i d) 1 1)),
+       .packet false (.ok (honestMsg liveEnv (fun i d => Sym.share i d) 2 2))]).proc.ending = some true := by
+  decide
+
+/-- With a `round1.Start` that drops a panicking stored message and goes on (`startRecovers`, the
+proposed repair), the same history finalises the block in the order that failed above. -/
+example :
+    (Life.run (symCrypto 2 [0, 1, 2]) { liveEnv with startRecovers := true } id (Life.new 9)
       [.cast 1000 .wait, .packet false (.ok oversizeMsg), .notify .accept,
        .packet false (.ok (honestMsg liveEnv (fun i d => Sym.share i d) 1 1)),
        .packet false (.ok (honestMsg liveEnv (fun i d => Sym.share i d) 2 2))]).proc.ending = some true := by
